@@ -930,13 +930,16 @@ def extract_runtime(src: Path) -> str:
                 continue
             # protocol_send: the three isinstance branches
             branches: Dict[str, Any] = {}
-            node: Any = next((n for n in ps.body if isinstance(n, ast.If)), None)  # type: ignore
-            while isinstance(node, ast.If):
+            # the dispatch on the event class: an if/elif chain, or consecutive `if isinstance(...): ...` statements
+            todo = [n for n in ps.body if isinstance(n, ast.If)]  # type: ignore
+            while todo:
+                node = todo.pop(0)
                 t = ast.unparse(node.test)
                 for k in ("RawData", "Closed", "Updated"):
-                    if f"isinstance(event, {k})" == t:
-                        branches[k] = node.body
-                node = node.orelse[0] if len(node.orelse) == 1 and isinstance(node.orelse[0], ast.If) else None
+                    if f"isinstance(event, {k})" == t and k not in branches:
+                        branches[k] = [st for st in node.body if not (isinstance(st, ast.Return) and st.value is None)]
+                if len(node.orelse) == 1 and isinstance(node.orelse[0], ast.If):
+                    todo.insert(0, node.orelse[0])
             if set(branches) != {"RawData", "Closed", "Updated"}:
                 fail(f"runtime {worker}", f"protocol_send branches are {sorted(branches)}")
                 continue
@@ -1238,7 +1241,10 @@ def extract_h2_init(src: Path) -> str:
         for h in [n for n in ast.walk(hfn) if isinstance(n, ast.ExceptHandler)]:  # type: ignore
             for c in ast.walk(h):
                 if isinstance(c, ast.Call) and ast.unparse(c.func) == "self.protocol.initiate":
-                    calls[ast.unparse(h.type)] = [ast.unparse(a) for a in c.args]
+                    # the arguments are attributes of the caught exception, whatever the handler calls it (`as error`, `as exc`)
+                    var = h.name or ""
+                    calls[ast.unparse(h.type)] = [("error." + a.attr) if isinstance(a, ast.Attribute) and isinstance(a.value, ast.Name) and a.value.id == var
+                                                  else ast.unparse(a) for a in c.args]
         if calls != {"H2ProtocolAssumedError": [], "H2CProtocolRequiredError": ["error.headers", "error.settings"]}:
             fail("wrapper initiate", f"initiate calls per switch are {calls}")
         efn = find_def(parse(src / "protocol/h11.py"), "H2CProtocolRequiredError", "__init__")
